@@ -84,7 +84,7 @@ def _config(draw, cap=160):
                 events=draw(st.sampled_from([[], [], [0.37], [0.37, 0.62]] if not against else [[], [0.37], [0.37, 0.62], [0.62]])), user_jac=draw(st.booleans()),
                 fault=draw(st.sampled_from(["rotate", "rotate", "rotate", "custom", "runtime", "zerodiv", "keyboard", "nested"])), cap=cap,
                 # a second fault, `second` user-callable calls into the resumed integrate() (at every third crash point)
-                second=draw(st.sampled_from([0, 0, 1, 2, 5, 17])), against_span=against)
+                second=draw(st.sampled_from([0, 0, 1, 2, 5, 17])), against_span=against, noop_first=draw(st.sampled_from([False, False, True])))
 
 
 def parts(tier):
@@ -151,6 +151,8 @@ class Harness(object):
             declared_tf = case["tf"] if not case.get("against_span") else case["t0"] - (case["tf"] - case["t0"])
             a = de.OdeSystem(rhs, y0=y0, t=(case["t0"], declared_tf), dense_output=case["dense"], dt=case["dt"], rtol=case["rtol"], atol=case["atol"])
             a.method = M.get(case["method"])
+            if case.get("noop_first"):
+                a.integrate(np.float64(case["t0"]))       # a call whose target is where the system already is: nothing to do
             self.a = a
         except BaseException as e:
             if self.fault_obj is e:
